@@ -49,16 +49,23 @@ func mcastIface() (name string, ip [4]byte, ok bool) {
 	if err != nil {
 		return "", ip, false
 	}
-	for _, it := range ifs {
-		if it.Flags&net.FlagUp == 0 || it.Flags&net.FlagMulticast == 0 || it.Flags&net.FlagLoopback != 0 {
-			continue
-		}
-		addrs, _ := it.Addrs()
-		for _, a := range addrs {
-			if n, ok2 := a.(*net.IPNet); ok2 {
-				if v4 := n.IP.To4(); v4 != nil {
-					copy(ip[:], v4)
-					return it.Name, ip, true
+	// prefer a real interface; fall back to a loopback that was made multicast-capable (private network
+	// namespace of the child process: `ip link set lo multicast on; ip route add 224.0.0.0/4 dev lo`)
+	for pass := 0; pass < 2; pass++ {
+		for _, it := range ifs {
+			if it.Flags&net.FlagUp == 0 || it.Flags&net.FlagMulticast == 0 {
+				continue
+			}
+			if (it.Flags&net.FlagLoopback != 0) != (pass == 1) {
+				continue
+			}
+			addrs, _ := it.Addrs()
+			for _, a := range addrs {
+				if n, ok2 := a.(*net.IPNet); ok2 {
+					if v4 := n.IP.To4(); v4 != nil {
+						copy(ip[:], v4)
+						return it.Name, ip, true
+					}
 				}
 			}
 		}
